@@ -784,6 +784,22 @@ func runC18(cfg *runCfg) error {
 				map[string]interface{}{"doc_seed": seed, "vals": vals, "conds": conds})
 		}
 		// headers and footers: the part stays well-formed, its text is the text with the variables substituted
+		// what the accessors say about the rendered document: the page settings and the number of section elements are
+		// those of the base
+		nSect := func(d *document.Document) int {
+			n := 0
+			for _, el := range d.Body.Elements {
+				if _, ok := el.(*document.SectionProperties); ok {
+					n++
+				}
+			}
+			return n
+		}
+		wantSect, gotSect := nSect(wantDoc), nSect(out)
+		wantPS, gotPS := fmt.Sprintf("%+v", *wantDoc.GetPageSettings()), fmt.Sprintf("%+v", *out.GetPageSettings())
+		if wantPS != gotPS || (gotSect != wantSect && !(wantSect == 0 && gotSect <= 1)) {
+			fail(ci, "only_placeholders_change", "section_settings", fmt.Sprintf("seed %d: the rendered document reports page settings %s over %d section elements, the base %s over %d", seed, gotPS, gotSect, wantPS, wantSect), nil)
+		}
 		b0, e0 := base.ToBytes()
 		b1, e1 := out.ToBytes()
 		if e0 != nil || e1 != nil {
